@@ -194,10 +194,15 @@ Definition stall_spec (c : stall_case) : bool :=
 Definition stall_check (c : stall_case) : bool * bool := (stall_agree c, stall_spec c).
 
 (** ---- C07, random concurrent mix on the running code (with the race detector in the thorough tier) ---- *)
-Record stress_case := { st_races : N; st_bad : N; st_unfinished : bool; st_lookups : N; st_overlap : N; st_regress : N }.
+Record stress_case := { st_races : N; st_bad : N; st_unfinished : bool; st_lookups : N; st_overlap : N; st_regress : N;
+                        st_behind : N; st_shrinks : N; st_wire_stale : N }.
 (** no report of the race detector, every lookup returned a value xor an error, everything returned, and no update
     handler was ever run twice at once or handed an older cluster set after a newer one (handlers are serialised with
     the updates: registration replays the cache inside the manager's write section) *)
 Definition stress_spec (c : stress_case) : bool :=
-  N.eqb (st_races c) 0 && N.eqb (st_bad c) 0 && negb (st_unfinished c) && N.eqb (st_overlap c) 0 && N.eqb (st_regress c) 0.
+  N.eqb (st_races c) 0 && N.eqb (st_bad c) 0 && negb (st_unfinished c) && N.eqb (st_overlap c) 0 && N.eqb (st_regress c) 0 &&
+  (* no lookup exposed a cluster set newer than what a handler registered before the lookup had been run for (policy before
+     data); along every stream the names a type lists never shrank (nothing is evicted in these runs: C03); once quiet,
+     the last request of every subscribed type on the live stream lists the interest set (C03) *)
+  N.eqb (st_behind c) 0 && N.eqb (st_shrinks c) 0 && N.eqb (st_wire_stale c) 0.
 Definition stress_check (c : stress_case) : bool * bool := (true, stress_spec c).
